@@ -402,7 +402,21 @@ pub fn validate_amount_decimals(amount: f64, currency: &str) -> Result<(), Parse
 /// - Decimal precision exceeds currency limit (C03)
 pub fn parse_amount_with_currency(input: &str, currency: &str) -> Result<f64, ParseError> {
     let amount = parse_amount(input)?;
-    validate_amount_decimals(amount, currency)?;
+    // Count the decimals that were written: the f64 rendering shows binary noise for large
+    // values (123456789012.34 prints as ...3399963379) and would reject valid amounts.
+    let decimal_places = input
+        .find([',', '.'])
+        .map(|pos| input.len() - pos - 1)
+        .unwrap_or(0);
+    let max_decimals = get_currency_decimals(currency);
+    if decimal_places > max_decimals as usize {
+        return Err(ParseError::InvalidFormat {
+            message: format!(
+                "Amount has {} decimal places but currency {} allows maximum {} (Error code: C03)",
+                decimal_places, currency, max_decimals
+            ),
+        });
+    }
     Ok(amount)
 }
 
